@@ -750,8 +750,8 @@ def main(tier, seed, only=None):
         if api_box.get("infra"):
             infra.append(api_box["infra"])
     if infra:
-        log("INFRASTRUCTURE: %d schedules could not be run; first: %s" % (len(infra), infra[0]))
-        return 2
+        # what could be run is still evaluated: a violation found there is reported; with none found the verdict is "cannot tell" (exit 2)
+        log("INFRASTRUCTURE: %d schedules could not be run; first: %s" % (len(infra), infra[0][:3000]))
     if api_box.get("stats"):
         log("API sweep: %s" % json.dumps(api_box["stats"]))
     # ---- statistics
@@ -813,7 +813,8 @@ def main(tier, seed, only=None):
             log("  public API calls whose result before main differs (%d): %s" % (len(names_), ", ".join(names_[:6])))
             path = os.path.join(common.replay_dir(), "C19-%d-%d.json" % (seed, n))
             ok_ = False
-            for only_ in ([f["note"].split(" [")[0]], None):
+            # a history (chain) is defined by the whole registered op set: replayed with all of it
+            for only_ in ((None,) if f["note"].startswith("chain:") else ([f["note"].split(" [")[0]], None)):
                 with open(path, "w", encoding="utf-8") as fh:
                     json.dump({"property": PROP, "kind": "api-sweep", "seed": seed, "violation": {k: v for k, v in f.items() if k != "schedule"},
                                "schedule": f["schedule"], "only": only_, "thorough": thorough, "repo": common.repo_state(),
@@ -849,6 +850,8 @@ def main(tier, seed, only=None):
         log(l)
     if ungated and exit_code == 0:
         log("INFRASTRUCTURE: %d candidate violations did not reproduce in fresh-process replays and nothing else was found: %s" % (len(ungated), ungated[:3]))
+        return 2
+    if infra and exit_code == 0:
         return 2
     wall = time.time() - t0
     sample_prog = programs[lto_index - 1] if nseeded else programs[0]
@@ -978,10 +981,12 @@ def api_check(exe, cfgname, linkname, salt):
                          "detail": res["tail"], "schedule": {"api": True, "cfg": cfgname, "link": linkname, "salt": salt}})
         skip.append(pid)
     observed = 0
+    nchains = 0
     for pid, p in sorted(res["recs"].items()):
         if pid in skip or p["st"] == 2:
             continue
         observed += 1
+        nchains += 1 if p["form"] == "h" else 0
         r = ref["recs"].get(pid)
         cls = None
         if p["st"] == 1:
@@ -994,7 +999,14 @@ def api_check(exe, cfgname, linkname, salt):
             failures.append({"probe": pid, "class": cls, "facility": "api:" + family(p["name"]).split("|")[0], "kind": "api", "form": p["form"],
                              "note": p["name"] + (" [from inline variable]" if p["form"] == "i" else (" [literal operands, object at namespace scope]" if p["form"] == "c" else "")), "compiler": "clang" if "clang" in cfgname else "gcc",
                              "detail": "", "schedule": {"api": True, "cfg": cfgname, "link": linkname, "salt": salt}})
+    with API_LOCK:
+        API_COUNTERS["histories"] = API_COUNTERS.get("histories", 0) + nchains
     return failures, None, observed
+
+
+import threading as _threading
+API_LOCK = _threading.Lock()
+API_COUNTERS = {}
 
 
 def api_sweep(seed, thorough, only=None, cfg_filter=None):
@@ -1060,5 +1072,5 @@ def api_sweep(seed, thorough, only=None, cfg_filter=None):
         runs += nsalts
     return {"failures": failures, "infra": None,
             "stats": {"op_instances": {(" ".join([c[0]] + c[1])): len(h.ops) for h, c in zip(hs, cfgs)}, "schedules": runs,
-                      "op_evaluations_before_main": observed, "build_seconds": {(" ".join([c[0]] + c[1])): round(h.build_s) for h, c in zip(hs, cfgs)},
+                      "op_evaluations_before_main": observed, "of_which_histories_on_a_shared_stream": API_COUNTERS.get("histories", 0), "build_seconds": {(" ".join([c[0]] + c[1])): round(h.build_s) for h, c in zip(hs, cfgs)},
                       "ops_dropped_uncompilable": sum(len(h.dropped) for h in hs)}}
